@@ -225,7 +225,8 @@ def decide(ctx, obs_list, what: set[str]):
                             ctx.violation(f"space-{pr[0]}:{j['opt']}", f"{j['opt']}: reported position {pos!r}: {pr[1]}", {"kind": "job", "job": j, "generation": g})
                     if "cost" in what:
                         try:
-                            true = search.objective_value(t["obj"][9:] if t["obj"].startswith("mutating:") else t["obj"], pos)
+                            true = search.objective_value(t["obj"][9:] if t["obj"].startswith("mutating:") else t["obj"][7:] if t["obj"].startswith("global:") else t["obj"], pos)
+                            if t["obj"].startswith("global:"): true = true + float(t.get("global_shift", 0.0))
                         except Exception:
                             continue
                         true_cost = float(np.dot(true, weights)) if isinstance(true, list) and weights is not None else true
